@@ -36,7 +36,7 @@ type OObject struct {
 	Tags    map[string]string `json:"tags,omitempty"`
 	Class   string            `json:"class,omitempty"` // "" = STANDARD
 	Ck      map[string]string `json:"ck,omitempty"`
-	CkOpt   map[string]string `json:"-"` // model only: must match if reported
+	CkOpt   map[string]string `json:"-"`                 // model only: must match if reported
 	LastMod int64             `json:"lastmod,omitempty"` // unix nanos; implementation only
 }
 
